@@ -168,6 +168,12 @@ class Gen:
             if self.rng.random() < 0.15:
                 return ["u = %s" % self.other()]
             tgt = self.rng.choice(self.writable() + (["bx.v", "bx.items[0]"] if self.rng.random() < 0.3 else []))
+            if self.rng.random() < 0.07:
+                # a destructuring target whose elements evaluate something (attribute / subscript stores inside a target display)
+                t2 = self.rng.choice(["bx.v", "bx.items[0]", "bx.items[(%s) * 0]" % self.atom(), "bx.items[-1]"])
+                shape = self.rng.choice(["%s, %s = %s, %s", "[%s, %s] = %s, %s", "(%s, %s) = [%s, %s]"])
+                a, b_ = (tgt, t2) if self.rng.random() < 0.5 else (t2, tgt)
+                return [shape % (a, b_, self.expr(1), self.expr(1))]
             if self.rng.random() < 0.2:
                 return ["%s %s= %s" % (tgt, self.rng.choice("+-*"), self.expr())]
             return ["%s = %s" % (tgt, self.expr())]
